@@ -79,6 +79,11 @@ LAYOUTS = {
     "diamond_template": ({"tinc.xbb": tinc(), "ua.xbb": ["name ua", "version 1.0", 'include "tinc.xbb"', "", "tinc(alpha=%(f)s, beta=%(f)s) | [%(a)s, %(b)s]"],
                           "ub.xbb": ["name ub", "version 1.0", 'include "tinc.xbb"', "", "tinc(beta=%(f)s, alpha=%(f)s) | [%(b)s, %(a)s]"],
                           "main.xbb": ["name main", "version 1.0", 'include "ua.xbb"', 'include "ub.xbb"', 'include "tinc.xbb"', "", "ub | [%(m)s, %(m)s]", "ua | [%(m)s, %(m)s]"]}, "main.xbb"),
+    # the same call text evaluated in different variable environments (loop variable / re-declared variable in the arguments)
+    "template_in_loop": ({"tinc.xbb": tinc(), "main.xbb": ["name main", "version 1.0", 'include "tinc.xbb"', "", "for int m in [1, 4]", "    tinc(alpha=%(f)s, beta=m) | [0, m]"]}, "main.xbb"),
+    "template_in_range_loop": ({"tinc.xbb": tinc(), "main.xbb": ["name main", "version 1.0", 'include "tinc.xbb"', "", "float x = %(f)s", "for float t in 1:4", "    tinc(alpha=t*x, beta=2) | [5, 6]"]}, "main.xbb"),
+    "template_same_text_redeclared_variable": ({"tinc.xbb": tinc(), "main.xbb": ["name main", "version 1.0", 'include "tinc.xbb"', "", "float x = %(f)s", "tinc(alpha=x, beta=2) | [0, 1]",
+                                                                                 "float x = %(f)s", "tinc(alpha=x, beta=2) | [0, 1]", "tinc(alpha=x, beta=2) | [2, 3]"]}, "main.xbb"),
     "target_and_include": ({"inc.xbb": inc2(), "main.xbb": ["name main", "version 1.0", "target X8 (shots=%(i)s)", 'include "inc.xbb"', "", "inc | [%(m)s, %(m)s]"]}, "main.xbb"),
     # mismatched calls must be refused
     "bad_arity": ({"inc.xbb": inc2(), "main.xbb": ["name main", "version 1.0", 'include "inc.xbb"', "", "inc | [%(m)s, %(m)s, %(m)s]"]}, "main.xbb"),
